@@ -453,3 +453,10 @@ def load(scope='lib', crate='risinglight', test=False):
     prog.info = info
     prog.all_crates = crates
     return prog
+
+
+def load_fixture():
+    import facts
+    fdir = facts.fixture_facts()
+    crates = facts.load_records(fdir)
+    return Prog(crates, crate='verif_fixture', test=False, kind='Rlib')
